@@ -4,7 +4,7 @@ import sys
 
 from mc.engine import import_holpy
 
-MODULES = []
+MODULES = ['mc.holsem']
 
 
 def main():
